@@ -1,6 +1,7 @@
 """C04 — Scalar values survive their text and numeric wire forms exactly."""
 from __future__ import annotations
 
+import datetime
 import json
 import re
 
@@ -303,6 +304,12 @@ def explore(ctx):
         for i in range(0, len(vals), 30):
             nums = [r.choice([0, 1, -1, 1577836800, 253402300799, -62135596800, r.randint(-10**9, 4 * 10**9), r.randint(-10**12, 10**12),
                               ["f", repr(round(r.uniform(-10**9, 10**9), r.randint(0, 6)))], ["f", "1.5"], ["f", "0.000001"]]) for _ in range(6)]
+            # floats of every magnitude whose microseconds are decided by rounding, not by their digits: a few decimals at small
+            # and middling magnitudes, one digit beyond the microsecond, sums of tenths, the total_seconds() of a duration
+            nums += [["f", repr(r.choice([round(r.uniform(-100, 100), r.randint(1, 7)), round(r.uniform(-10**6, 10**6), r.randint(1, 7)),
+                                          r.randint(-50, 50) + r.choice([0.9999999, 0.0000009, 0.0000005, 0.0000015, 0.1 + 0.2, 0.7 + 0.1]),
+                                          datetime.timedelta(microseconds=r.randint(-10**13, 10**13)).total_seconds(),
+                                          r.randint(-10**4, 10**4) / r.choice([3, 7, 10, 100, 1000])]))] for _ in range(6)]
             jobs.append({"cases": [(kind, v, r.random() < 0.2) for v in vals[i:i + 30]], "numbers": nums})
     core.import_typelib()
     outs = iso.map_isolated(child, jobs, timeout=120)
